@@ -5,6 +5,7 @@ import PPLV.Interval.ProofsMulExact
 import PPLV.Interval.ProofsRefine
 import PPLV.Interval.ProofsLF
 import PPLV.Interval.ProofsWiden
+import PPLV.Interval.ProofsWrap
 import Mathlib.Tactic.NormNum
 /-!
 # C12 — interval arithmetic encloses every concrete result
@@ -304,6 +305,26 @@ theorem wrap_encloses_fails :
 
 /-- with the test repaired (`u ≥ lower`) the same input gives the whole quadrant -/
 example : wrapAssign false Policy.rational Rounding.id ⟨⟨fin 0, false⟩, ⟨fin 256, false⟩⟩ 8 .unsigned
+    ⟨⟨fin 0, false⟩, ⟨fin 255, false⟩⟩ = ⟨⟨fin 0, false⟩, ⟨fin 255, false⟩⟩ := by decide +kernel
+
+/-- The code as written, exact rounding, every policy, both representations: if the width of the
+interval is not exactly `2^w`, the residue of every (rational) member that lies in the refinement
+is in the result.  (`_partial`: the missing case is exactly width `= 2^w`, where
+`wrap_encloses_fails` shows the clause is false; with the test repaired (`d12 = false`) the
+side condition is not needed: `wrap_encloses_repaired`.) -/
+theorem wrap_encloses_partial (pol : Policy) (I ref : Iv) (w : Nat) (r : Repn) (a : Rat)
+    (hne : ∀ l h, I.lo.value = fin l → I.hi.value = fin h → h - l ≠ (2 : Rat) ^ w)
+    (ha : I.mem pol a) (hr : ref.mem pol (wrapVal r w a)) :
+    (wrapAssign true pol Rounding.id I w r ref).mem pol (wrapVal r w a) :=
+  wrapAssign_encloses_asWritten hne ha hr
+
+theorem wrap_encloses_repaired (pol : Policy) (I ref : Iv) (w : Nat) (r : Repn) (a : Rat)
+    (ha : I.mem pol a) (hr : ref.mem pol (wrapVal r w a)) :
+    (wrapAssign false pol Rounding.id I w r ref).mem pol (wrapVal r w a) :=
+  wrapAssign_encloses ha hr
+
+/-- non-vacuity: `[250,260]` wrapped to unsigned 8 bits is `[0,4] ∪ [250,255]`, hull `[0,255]` -/
+example : wrapAssign true Policy.rational Rounding.id ⟨⟨fin 250, false⟩, ⟨fin 260, false⟩⟩ 8 .unsigned
     ⟨⟨fin 0, false⟩, ⟨fin 255, false⟩⟩ = ⟨⟨fin 0, false⟩, ⟨fin 255, false⟩⟩ := by decide +kernel
 
 end C12
